@@ -337,6 +337,8 @@ class Harness:
                     k = 0
                     while step[2] is None or k < step[2]:
                         self.ev("hb", pid, k=k)
+                        if len(step) > 3 and step[3]:
+                            _section(self, spec["flavour"], pid, step[3])
                         time.sleep(step[1])
                         k += 1
                 elif op == "block":
@@ -377,6 +379,8 @@ class Harness:
                     k = 0
                     while step[2] is None or k < step[2]:
                         self.ev("hb", pid, k=k)
+                        if len(step) > 3 and step[3]:
+                            _section(self, fl, pid, step[3])
                         await sleep(step[1])
                         k += 1
                 elif op == "block":
@@ -557,8 +561,8 @@ class Harness:
             self.ev("driver-died", did, exc=type(err).__name__, text=str(err)[:200])
             raise
 
-    def start_drivers(self):
-        for spec in self.sc.get("drivers", []):
+    def start_drivers(self, specs=None):
+        for spec in (self.sc.get("drivers", []) if specs is None else specs):
             t = threading.Thread(target=self.driver, args=(spec,), daemon=True, name="driver-" + spec["id"])
             t._target_name = "driver"
             t.start()
@@ -570,8 +574,10 @@ class Harness:
         self.runner = r
         return r
 
-    def pre_start(self, runner):
+    def pre_start(self, runner, phase=None):
         for p in self.sc.get("payloads", []):
+            if phase is not None and p.get("phase", 0) != phase:
+                continue
             if p.get("via") == "queued":
                 self.do_adopt(p["id"], by="main", runner=runner)
             elif p.get("via") == "service-pre":
